@@ -21,7 +21,8 @@ RULE = ('amounts n in [0, 21*10^14] smallest units: uniform, >=10^15, top-of-ran
         'and parse back to n), numeric (Value(number, denominator).value_sat, from_satoshi(n, denominator=den)), '
         'output (Output(value=text|Value|int), Transaction.add_output, amount bytes of raw()). Sub-unit denominators '
         '(n, msat, usat) only on whole smallest units. [amount texts with runs of blanks / tabs between number and unit and blanks around] [Value histories: conversions interleaved with += / -= / + / - on one object against an integer model] Non-trivial = n >= 10^12 or a denominator other than "" and '
-        '"sat"; distinct by (path, api, n, denominator, currency code).')
+        '"sat"; distinct by (path, api, n, denominator, currency code).'
+        ' [add_output with the floats next to a whole amount]')
 ASSUMPTIONS = ['ref/money.UNIT_EXP gives the meaning of each denominator symbol (SI prefixes; sat=1e-8, finney=1e-7, '
                'msat=1e-11, usat=1e-14)',
                'every network of the pinned table has smallest unit 1e-8 and the pinned currency code; 21*10^14 units '
